@@ -1,7 +1,7 @@
 (** C14 -- byte-level lemmas about [Wire.BitField.lane_write] / [lane_read] on byte-aligned
     fields, used to give the SCMP encoders of [Scmp.Model] their closed byte form. *)
 From Coq Require Import Lia ZifyBool ZifyNat ZifyN.
-From Sci Require Import Scmp.Model.
+From Sci Require Import Scmp.Model Scmp.Spec Scmp.Proofs.
 Local Open Scope N_scope.
 Ltac Zify.zify_post_hook ::= Z.div_mod_to_equations.
 Arguments N.add : simpl never.
@@ -41,6 +41,14 @@ Qed.
 Lemma byte_lo_le_hi' r : byte_lo r <= byte_hi r.
 Proof. unfold byte_lo, byte_hi, r_end, r_start. lia. Qed.
 
+Lemma be_bytes_length' n v : length (be_bytes n v) = n.
+Proof. revert v. induction n as [|n IH]; intros v; cbn [be_bytes]; [reflexivity|]. rewrite app_length, IH. cbn. lia. Qed.
+Lemma lane_write_length' b r v : byte_hi r <= blen b -> length (lane_write b r v) = length b.
+Proof.
+  intros H. unfold lane_write. pose proof (byte_lo_le_hi' r) as L. unfold blen in H.
+  rewrite !app_length, be_bytes_length', firstn_length, skipn_length. lia.
+Qed.
+
 (** a write only concerns the prefix that contains its byte range *)
 Lemma lane_write_app b t r v :
   byte_hi r <= blen b -> lane_write (b ++ t) r v = lane_write b r v ++ t.
@@ -74,6 +82,13 @@ Ltac aligned_write k w :=
     rewrite (lane_write_aligned_zero b k w v) by (vm_compute; first [reflexivity | discriminate])
   end.
 
+Ltac norm_lists :=
+  repeat match goal with
+         | |- context [N.to_nat ?n] =>
+           let m := eval vm_compute in (N.to_nat n) in progress change (N.to_nat n) with m
+         end;
+  cbn [firstn skipn app be_bytes].
+
 (** the 8 fixed bytes of an echo reply *)
 Lemma echo_hdr8 id sq :
   lane_write (lane_write (lane_write (lane_write (lane_write (repeat 0 8)
@@ -82,5 +97,161 @@ Lemma echo_hdr8 id sq :
   = [129; 0; 0; 0] ++ be_bytes 2 (trunc 16 id) ++ be_bytes 2 (trunc 16 sq).
 Proof.
   cbn [repeat].
-  aligned_write 0 1. Show.
-Abort.
+  aligned_write 0 1. norm_lists.
+  aligned_write 1 1. norm_lists.
+  aligned_write 2 2. norm_lists.
+  aligned_write 4 2. norm_lists.
+  aligned_write 6 2. norm_lists.
+  change (8 * 2) with 16. rewrite !trunc_idem.
+  repeat (f_equal; try (vm_compute; reflexivity)).
+Qed.
+
+Lemma zeros_split a b : zeros (a + b) = repeat 0 (N.to_nat a) ++ zeros b.
+Proof. unfold zeros. rewrite N2Nat.inj_add, repeat_app. reflexivity. Qed.
+
+(** ScmpEchoReply::encode_unchecked in closed form: type 129, code 0, (checksum), identifier,
+    sequence number, data -- for every identifier, sequence number and data *)
+Lemma encode_echo_reply_closed id sq data :
+  encode_echo_reply id sq data
+  = Ok ([129; 0; 0; 0] ++ be_bytes 2 (trunc 16 id) ++ be_bytes 2 (trunc 16 sq) ++ data).
+Proof.
+  unfold encode_echo_reply.
+  assert (EH : ScmpEchoReply_HEADER_SIZE_BYTES = 8) by reflexivity. rewrite EH.
+  rewrite (N.add_comm (blen data) 8), zeros_split. change (N.to_nat 8) with 8%nat.
+  set (t := zeros (blen data)). assert (Lt : blen t = blen data) by (unfold t, blen, zeros; rewrite repeat_length; lia).
+  assert (B : forall z : bytes, length z = 8%nat -> blen (z ++ t) = 8 + blen data)
+    by (intros z Hz; unfold blen in *; rewrite app_length; lia).
+  assert (W : forall (z : bytes) r x, length z = 8%nat -> (size_bytes r <=? LANE_BYTES) = true -> byte_hi r <= 8 ->
+              wr (z ++ t) r x = Ok (lane_write z r x ++ t) /\ length (lane_write z r x) = 8%nat).
+  { intros z r x Hz Hs Hh. rewrite wr_eq; [|exact Hs|rewrite (B z Hz); lia].
+    rewrite lane_write_app by (unfold blen; lia). split; [reflexivity|].
+    rewrite lane_write_length'; [exact Hz|unfold blen; lia]. }
+  destruct (W (repeat 0 8) ScmpEchoReply_TYPE_RNG T_ECHO_REPLY eq_refl eq_refl) as [E1 L1]; [vm_compute; discriminate|].
+  rewrite E1. cbn [obind]. clear E1.
+  destruct (W _ ScmpEchoReply_CODE_RNG 0 L1 eq_refl) as [E2 L2]; [vm_compute; discriminate|].
+  rewrite E2. cbn [obind]. clear E2.
+  destruct (W _ ScmpEchoReply_CHECKSUM_RNG 0 L2 eq_refl) as [E3 L3]; [vm_compute; discriminate|].
+  rewrite E3. cbn [obind]. clear E3.
+  destruct (W _ ScmpEchoReply_IDENTIFIER_RNG (trunc 16 id) L3 eq_refl) as [E4 L4]; [vm_compute; discriminate|].
+  rewrite E4. cbn [obind]. clear E4.
+  destruct (W _ ScmpEchoReply_SEQUENCE_NUMBER_RNG (trunc 16 sq) L4 eq_refl) as [E5 L5]; [vm_compute; discriminate|].
+  rewrite E5. cbn [obind]. clear E5.
+  rewrite echo_hdr8 in *.
+  set (h := [129; 0; 0; 0] ++ be_bytes 2 (trunc 16 id) ++ be_bytes 2 (trunc 16 sq)) in *.
+  assert (Lo : byte_lo (8 * 8, (8 + blen data - 8) * 8) = 8) by (unfold byte_lo, r_start; cbn [fst]; lia).
+  assert (Hi : byte_hi (8 * 8, (8 + blen data - 8) * 8) = 8 + blen data) by (unfold byte_hi, r_end; cbn [fst snd]; lia).
+  rewrite Lo, Hi. replace (8 + blen data - 8) with (blen data) by lia.
+  unfold index_range. destruct ((0 <=? blen data) && (blen data <=? blen data)) eqn:C; [|lia]. cbn [obind].
+  assert (Sd : sub data 0 (blen data) = data).
+  { unfold sub, blen. rewrite N.sub_0_r, Nat2N.id. cbn [N.to_nat skipn]. apply firstn_all. }
+  rewrite Sd. unfold splice. rewrite (B h L5).
+  destruct ((8 <=? 8 + blen data) && (8 + blen data <=? 8 + blen data)) eqn:C2; [|lia]. cbn [negb].
+  match goal with |- context [negb (?a =? ?b)] => destruct (negb (a =? b)) eqn:C3; [lia|] end. f_equal.
+  change (N.to_nat 8) with 8%nat. rewrite <- L5 at 1. rewrite firstn_app, firstn_all, Nat.sub_diag.
+  cbn [firstn]. rewrite app_nil_r. rewrite skipn_all2; [|unfold blen in *; rewrite app_length; unfold t in *; lia].
+  rewrite app_nil_r. unfold h. rewrite <- !app_assoc. reflexivity.
+Qed.
+
+(** * the fixed part of the five error messages in closed form *)
+
+Definition err_fixed (m : emsg) : bytes :=
+  let ty := e_ty m in
+  if ty =? 1 then [1; trunc 8 (e_code m); 0; 0; 0; 0; 0; 0]
+  else if ty =? 2 then [2; 0; 0; 0; 0; 0] ++ be_bytes 2 (trunc 16 (e_f1 m))
+  else if ty =? 4 then [4; trunc 8 (e_code m); 0; 0; 0; 0] ++ be_bytes 2 (trunc 16 (e_f1 m))
+  else if ty =? 5 then [5; 0; 0; 0] ++ be_bytes 8 (trunc 64 (e_f1 m)) ++ be_bytes 8 (trunc 16 (e_f2 m))
+  else [6; 0; 0; 0] ++ be_bytes 8 (trunc 64 (e_f1 m)) ++ be_bytes 8 (trunc 16 (e_f2 m)) ++ be_bytes 8 (trunc 16 (e_f3 m)).
+
+Lemma wr_prefix (z t : bytes) r x :
+  (size_bytes r <=? LANE_BYTES) = true -> byte_hi r <= blen z ->
+  wr (z ++ t) r x = Ok (lane_write z r x ++ t) /\ length (lane_write z r x) = length z.
+Proof.
+  intros Hs Hh. rewrite wr_eq; [|exact Hs|unfold blen in *; rewrite app_length; lia].
+  rewrite lane_write_app by exact Hh. split; [reflexivity|]. apply lane_write_length'. exact Hh.
+Qed.
+
+Lemma trunc_small a b v : a <= b -> trunc a v mod 2 ^ b = trunc a v.
+Proof.
+  intros H. unfold trunc. apply N.mod_small.
+  apply N.lt_le_trans with (2 ^ a); [apply N.mod_lt; apply N.pow_nonzero; discriminate|].
+  apply N.pow_le_mono_r; [discriminate|exact H].
+Qed.
+
+Ltac wr_step W L :=
+  match goal with
+  | |- context [wr (?z ++ ?t) ?r ?x] =>
+    let E := fresh "E" in let L' := fresh "L" in
+    destruct (wr_prefix z t r x eq_refl) as [E L'];
+    [ unfold blen; rewrite L; vm_compute; discriminate
+    | rewrite E; cbn [obind]; clear E; rewrite L in L'; clear L; rename L' into L ]
+  end.
+
+Ltac eqb_consts :=
+  repeat match goal with
+         | |- context [?a =? ?b] =>
+           let v := eval vm_compute in (a =? b) in
+           match v with
+           | true => change (a =? b) with true
+           | false => change (a =? b) with false
+           end
+         end; cbn [negb andb orb].
+
+Lemma sub_firstn (l : bytes) n : sub l 0 n = firstn (N.to_nat n) l.
+Proof. unfold sub. rewrite N.sub_0_r. reflexivity. Qed.
+
+Lemma splice_tail (z t q : bytes) hdr size :
+  length z = N.to_nat hdr -> blen t = size - hdr -> hdr <= size -> blen q = size - hdr ->
+  splice (z ++ t) hdr size q = Ok (z ++ q).
+Proof.
+  intros Hz Ht Hle Hq. unfold splice.
+  assert (B : blen (z ++ t) = size) by (unfold blen in *; rewrite app_length; lia).
+  rewrite B. destruct ((hdr <=? size) && (size <=? size)) eqn:C; [|lia]. cbn [negb].
+  destruct (negb (blen q =? size - hdr)) eqn:C2; [lia|]. f_equal.
+  rewrite <- Hz at 1. rewrite firstn_app, firstn_all, Nat.sub_diag. cbn [firstn]. rewrite app_nil_r.
+  rewrite skipn_all2; [|unfold blen in *; rewrite app_length; lia]. rewrite app_nil_r. reflexivity.
+Qed.
+
+Lemma trunc8_256 v : trunc 8 v mod 256 = trunc 8 v.
+Proof. unfold trunc. change (2 ^ 8) with 256. rewrite N.mod_mod; [reflexivity|discriminate]. Qed.
+
+Ltac fin_bytes :=
+  change (8 * 1) with 8; change (8 * 2) with 16; change (8 * 4) with 32; change (8 * 8) with 64;
+  rewrite ?trunc_idem, ?(trunc_small 16 64), ?trunc8_256 by lia;
+  norm_lists;
+  repeat (f_equal; try (vm_compute; reflexivity)).
+
+Ltac hdr_steps :=
+  cbn [repeat];
+  repeat (first [ aligned_write 0 1 | aligned_write 1 1 | aligned_write 2 2 | aligned_write 4 4
+                | aligned_write 4 2 | aligned_write 6 2 | aligned_write 4 8 | aligned_write 12 8
+                | aligned_write 20 8 ]; norm_lists).
+
+Lemma encode_err_closed m h hdr :
+  err_hdr (e_ty m) = Some hdr ->
+  encode_err m h
+  = Ok (err_fixed m ++ firstn (N.to_nat (from_offending_packet_length hdr (blen (e_off m)) h - hdr)) (e_off m)).
+Proof.
+  intros Hh. pose proof Hh as Hin. apply assocN_In in Hin.
+  unfold scmp_error_kinds in Hin. cbn [In] in Hin.
+  unfold encode_err. rewrite Hh.
+  set (size := from_offending_packet_length hdr (blen (e_off m)) h).
+  pose proof (from_off_ge hdr (blen (e_off m)) h) as Hge. fold size in Hge.
+  replace size with (hdr + (size - hdr)) at 1 by lia. rewrite zeros_split.
+  set (t := zeros (size - hdr)).
+  assert (Lt : blen t = size - hdr) by (unfold t; apply zeros_blen).
+  rewrite offending_rng_lo, (offending_rng_hi _ _ Hge).
+  assert (Hincl : size - hdr <= blen (e_off m)) by (unfold size; rewrite from_off_included; lia).
+  unfold index_range. destruct ((0 <=? size - hdr) && (size - hdr <=? blen (e_off m))) eqn:C; [|lia].
+  assert (Hq : blen (sub (e_off m) 0 (size - hdr)) = size - hdr) by (apply sub_prefix_blen; exact Hincl).
+  unfold written_code, write_fixed, err_fixed.
+  destruct Hin as [H|[H|[H|[H|[H|[]]]]]]; injection H as Hty Hhdr; subst hdr; try rewrite <- !Hty;
+    eqb_consts;
+    match goal with |- context [repeat 0 (N.to_nat ?n)] =>
+      let k := eval vm_compute in (N.to_nat n) in change (N.to_nat n) with k end;
+    match goal with |- context [repeat 0 ?k ++ t] =>
+      assert (L : length (repeat 0 k) = k) by apply repeat_length end;
+    repeat wr_step wr_prefix L;
+    (rewrite splice_tail; [|rewrite L; reflexivity|exact Lt|exact Hge|exact Hq]);
+    rewrite sub_firstn; f_equal; f_equal; clear.
+  all: hdr_steps; fin_bytes.
+Qed.
